@@ -29,7 +29,7 @@ impl Check for C02 {
         "C02"
     }
     fn ncases(&self, tier: Tier) -> u64 {
-        tier.sz(5000, 60000)
+        tier.sz(20000, 300000)
     }
     fn rule(&self) -> &'static str {
         "one base grammar per case (LR(1)-not-LALR(1) templates and embeddings, 'lookahead squares' with many same-core states, random LR(1) grammars), each in 8 isomorphic permutations (rule, alternative and token order) to vary hash iteration order and merge schedule; for every permutation whose canonical LR(1) automaton (harness construction) is conflict-free: Pager table must report no conflicts, have <= canonical states, and agree with the canonical parser on tree / first-error lexeme for sampled sentences, mutants and random strings. Non-trivial = LR(1) grammar where Pager has strictly fewer states than canonical (a merge happened); distinct by normalised grammar."
@@ -38,12 +38,14 @@ impl Check for C02 {
         vec!["the canonical LR(1) construction and its parser are the harness's own (refs.rs); state cap 600 (beyond: inconclusive)", "first-error position is compared as lexeme index"]
     }
     fn floor(&self, tier: Tier) -> u64 {
-        tier.sz(4000, 40000)
+        tier.sz(8000, 80000)
     }
     fn required_counters(&self, _t: Tier) -> Vec<&'static str> {
         vec!["lr1_grammars", "non_lalr_grammars", "grammars_with_merges", "inputs_compared", "trees_compared", "errors_compared", "pager_merges", "pager_states_requeued", "grammars_where_gc_dropped_states"]
     }
     fn run_case(&self, seed: u64, idx: u64, tier: Tier) -> CaseOut {
+        // thorough tier: every third case draws its random grammars from the medium-sized family
+        set_size_boost(tier == Tier::Thorough && idx % 3 == 1);
         let mut out = CaseOut::new();
         let mut rng = Rng::derive(seed, "C02", idx, 0);
         let gc_base = if idx % 6 == 0 { Some(gen_gc_seed(&mut rng)) } else { None };
